@@ -6,6 +6,12 @@ package main
 //   pool_std_avail     : the availability test of eventPool.wakeupWaiters     (`p.inUseEvents.Load() < int64(p.capacity)`)
 //   pool_lm_tick_cond  : the condition under which lowMemoryEventPool.wakeupWaiters broadcasts, over
 //   pool_std_tick_cond   (w = `waiters > 0`, a = `eventsAvailable`); same for eventPool.wakeupWaiters
+//   pool_lm_hb_forever  : lowMemoryEventPool.wakeupWaiters is `for { if p.stopped.Load() { return }; time.Sleep(p.wakeupInterval); ... }`
+//   pool_std_hb_forever   and the stop guard is the ONLY way out of the loop (no other return / break / goto / panic / exit, nothing
+//                         that may block): false as soon as the heartbeat has an exit path - the liveness theorems of the pools
+//                         (Proofs/PoolHb.v, PoolTheorems.v) take `true` as a hypothesis, so an exit path breaks a proof obligation
+//   pool_lm_hb_starts   : get() runs `p.runHeartbeatOnce.Do(func() { go p.wakeupWaiters() })` on every path that reaches
+//   pool_std_hb_starts    getCond.Wait() (same block, in front of the statement that waits, no label in between)
 // Anything it does not recognise is an error: the tie is broken and the check reports it.
 
 import (
@@ -224,6 +230,328 @@ func poolAvailCmp(e ast.Expr) (string, error) {
 	return plCoqCmp(b.Op, "inuse", "cap")
 }
 
+// ---- the heartbeat's life cycle ------------------------------------------------------------------------------------------
+
+// `if p.stopped.Load() { return }`
+func plIsStopGuard(st ast.Stmt) bool {
+	is, ok := st.(*ast.IfStmt)
+	if !ok || is.Init != nil || is.Else != nil || !plIsPFieldCall(is.Cond, "stopped", "Load") || len(is.Body.List) != 1 {
+		return false
+	}
+	r, ok := is.Body.List[0].(*ast.ReturnStmt)
+	return ok && len(r.Results) == 0
+}
+
+// `time.Sleep(p.wakeupInterval)`
+func plIsSleepInterval(st ast.Stmt) bool {
+	es, ok := st.(*ast.ExprStmt)
+	if !ok {
+		return false
+	}
+	c, ok := es.X.(*ast.CallExpr)
+	if !ok || len(c.Args) != 1 || !plIsPField(c.Args[0], "wakeupInterval") {
+		return false
+	}
+	s, ok := c.Fun.(*ast.SelectorExpr)
+	if !ok || s.Sel.Name != "Sleep" {
+		return false
+	}
+	id, ok := s.X.(*ast.Ident)
+	return ok && id.Name == "time"
+}
+
+// poolHbForever: the body of wakeupWaiters must be one unconditional `for { ... }` that sleeps p.wakeupInterval once per
+// iteration (a direct statement of the loop, in front of the loads). Returns the ways out of the loop other than the stop
+// guard (empty = the heartbeat ticks for ever) - or an error when the shape is not recognised at all.
+func poolHbForever(fset *token.FileSet, fd *ast.FuncDecl) ([]string, error) {
+	name := fd.Name.Name
+	if len(fd.Body.List) != 1 {
+		return nil, fmt.Errorf("%s: expected the body to be a single `for { ... }` loop (%d statements)", name, len(fd.Body.List))
+	}
+	st := fd.Body.List[0]
+	loopLabel := ""
+	if ls, ok := st.(*ast.LabeledStmt); ok {
+		loopLabel, st = ls.Label.Name, ls.Stmt
+	}
+	loop, ok := st.(*ast.ForStmt)
+	if !ok {
+		return nil, fmt.Errorf("%s: expected the body to be a single `for { ... }` loop", name)
+	}
+	var exits []string
+	at := func(n ast.Node, what string) {
+		exits = append(exits, fmt.Sprintf("%s (line %d)", what, fset.Position(n.Pos()).Line))
+	}
+	if loop.Init != nil || loop.Cond != nil || loop.Post != nil {
+		at(loop, "the loop has a condition")
+	}
+	// shape of the iteration: [stop guard] ... Sleep(p.wakeupInterval) ... `waiters :=` ...
+	nSleep, sleepIdx, loadIdx := 0, -1, -1
+	for i, s := range loop.Body.List {
+		if plIsSleepInterval(s) {
+			nSleep++
+			sleepIdx = i
+		}
+		if as, ok := s.(*ast.AssignStmt); ok && loadIdx < 0 && len(as.Lhs) == 1 && plIsIdent(as.Lhs[0], "waiters") {
+			loadIdx = i
+		}
+	}
+	nSleepAll := 0
+	ast.Inspect(fd.Body, func(n ast.Node) bool {
+		if c, ok := n.(*ast.CallExpr); ok {
+			if s, ok := c.Fun.(*ast.SelectorExpr); ok && s.Sel.Name == "Sleep" {
+				nSleepAll++
+			}
+		}
+		return true
+	})
+	if nSleep != 1 || nSleepAll != 1 || loadIdx < 0 || sleepIdx > loadIdx {
+		return nil, fmt.Errorf("%s: expected exactly one `time.Sleep(p.wakeupInterval)` as a statement of the loop, in front of `waiters := ...` (found %d of %d Sleep calls)", name, nSleep, nSleepAll)
+	}
+	// labels declared inside the loop: a break to one of them stays inside
+	inner := map[string]bool{}
+	ast.Inspect(loop.Body, func(n ast.Node) bool {
+		if ls, ok := n.(*ast.LabeledStmt); ok {
+			inner[ls.Label.Name] = true
+		}
+		return true
+	})
+	var cerr error
+	var walk func(n ast.Node, depth int)
+	walkList := func(l []ast.Stmt, depth int) {
+		for _, s := range l {
+			walk(s, depth)
+		}
+	}
+	walk = func(n ast.Node, depth int) {
+		switch v := n.(type) {
+		case nil:
+			return
+		case *ast.FuncLit:
+			return // another function
+		case *ast.ReturnStmt:
+			at(v, "return")
+			return
+		case *ast.BranchStmt:
+			switch v.Tok {
+			case token.GOTO:
+				at(v, "goto")
+			case token.BREAK:
+				if v.Label != nil {
+					if !inner[v.Label.Name] || v.Label.Name == loopLabel {
+						at(v, "break "+v.Label.Name)
+					}
+				} else if depth == 0 {
+					at(v, "break")
+				}
+			case token.CONTINUE:
+				if cerr == nil {
+					cerr = fmt.Errorf("%s: `continue` in the heartbeat loop (line %d) is not supported by the translator", name, fset.Position(v.Pos()).Line)
+				}
+			}
+			return
+		case *ast.ForStmt:
+			walk(v.Init, depth)
+			walk(v.Cond, depth)
+			walk(v.Post, depth)
+			walkList(v.Body.List, depth+1)
+			return
+		case *ast.RangeStmt:
+			at(v, "range loop (may block or not terminate)")
+			walkList(v.Body.List, depth+1)
+			return
+		case *ast.SwitchStmt:
+			walk(v.Init, depth)
+			walk(v.Tag, depth)
+			walkList(v.Body.List, depth+1)
+			return
+		case *ast.TypeSwitchStmt:
+			walkList(v.Body.List, depth+1)
+			return
+		case *ast.SelectStmt:
+			at(v, "select (may block)")
+			walkList(v.Body.List, depth+1)
+			return
+		case *ast.SendStmt:
+			at(v, "channel send (may block)")
+		case *ast.UnaryExpr:
+			if v.Op == token.ARROW {
+				at(v, "channel receive (may block)")
+			}
+		case *ast.CallExpr:
+			if id, ok := v.Fun.(*ast.Ident); ok && id.Name == "panic" {
+				at(v, "panic")
+			}
+			if s, ok := v.Fun.(*ast.SelectorExpr); ok {
+				x, _ := s.X.(*ast.Ident)
+				switch {
+				case x != nil && x.Name == "os" && s.Sel.Name == "Exit", x != nil && x.Name == "runtime" && s.Sel.Name == "Goexit":
+					at(v, x.Name+"."+s.Sel.Name)
+				case x != nil && (x.Name == "logger" || x.Name == "log") && (strings.HasPrefix(s.Sel.Name, "Fatal") || strings.HasPrefix(s.Sel.Name, "Panic")):
+					at(v, x.Name+"."+s.Sel.Name)
+				case s.Sel.Name == "Wait" || s.Sel.Name == "Lock" || s.Sel.Name == "RLock" || s.Sel.Name == "Acquire":
+					at(v, "call of ."+s.Sel.Name+"() (may block)")
+				}
+			}
+		}
+		// generic descent
+		switch v := n.(type) {
+		case *ast.BlockStmt:
+			walkList(v.List, depth)
+		case *ast.IfStmt:
+			walk(v.Init, depth)
+			walk(v.Cond, depth)
+			walk(v.Body, depth)
+			walk(v.Else, depth)
+		case *ast.CaseClause:
+			for _, e := range v.List {
+				walk(e, depth)
+			}
+			walkList(v.Body, depth)
+		case *ast.CommClause:
+			walk(v.Comm, depth)
+			walkList(v.Body, depth)
+		case *ast.LabeledStmt:
+			walk(v.Stmt, depth)
+		case *ast.ExprStmt:
+			walk(v.X, depth)
+		case *ast.AssignStmt:
+			for _, e := range v.Rhs {
+				walk(e, depth)
+			}
+		case *ast.DeclStmt, *ast.IncDecStmt, *ast.EmptyStmt:
+		case *ast.GoStmt:
+			walk(v.Call, depth)
+		case *ast.DeferStmt:
+			walk(v.Call, depth)
+		case *ast.CallExpr:
+			walk(v.Fun, depth)
+			for _, e := range v.Args {
+				walk(e, depth)
+			}
+		case *ast.BinaryExpr:
+			walk(v.X, depth)
+			walk(v.Y, depth)
+		case *ast.UnaryExpr:
+			walk(v.X, depth)
+		case *ast.ParenExpr:
+			walk(v.X, depth)
+		case *ast.SelectorExpr:
+			walk(v.X, depth)
+		case *ast.StarExpr:
+			walk(v.X, depth)
+		case *ast.IndexExpr:
+			walk(v.X, depth)
+			walk(v.Index, depth)
+		case *ast.Ident, *ast.BasicLit:
+		case ast.Stmt:
+			if cerr == nil {
+				cerr = fmt.Errorf("%s: statement at line %d is not supported by the translator of the heartbeat loop", name, fset.Position(v.Pos()).Line)
+			}
+		}
+	}
+	for _, s := range loop.Body.List {
+		if plIsStopGuard(s) {
+			continue // the only way out that the model knows (the pool is stopped at shutdown)
+		}
+		walk(s, 0)
+	}
+	if cerr != nil {
+		return nil, cerr
+	}
+	return exits, nil
+}
+
+// `p.runHeartbeatOnce.Do(func() { go p.wakeupWaiters() })`
+func plIsHeartbeatStart(st ast.Stmt) bool {
+	es, ok := st.(*ast.ExprStmt)
+	if !ok {
+		return false
+	}
+	c, ok := es.X.(*ast.CallExpr)
+	if !ok || len(c.Args) != 1 {
+		return false
+	}
+	s, ok := c.Fun.(*ast.SelectorExpr)
+	if !ok || s.Sel.Name != "Do" || !plIsPField(s.X, "runHeartbeatOnce") {
+		return false
+	}
+	fl, ok := c.Args[0].(*ast.FuncLit)
+	if !ok || len(fl.Body.List) != 1 {
+		return false
+	}
+	g, ok := fl.Body.List[0].(*ast.GoStmt)
+	return ok && plIsPCall(g.Call, "wakeupWaiters")
+}
+
+// poolHbStarts: every path of get() that reaches getCond.Wait() has run `p.runHeartbeatOnce.Do(func() { go p.wakeupWaiters() })`:
+// the Do statement and the statement that contains the (only) Wait are statements of the same block, Do first, and no label
+// lies between them (nothing jumps over the Do). Returns a reason when it is not so.
+func poolHbStarts(fset *token.FileSet, fd *ast.FuncDecl) (string, error) {
+	name := fd.Name.Name
+	var waits []ast.Node
+	nGo := 0
+	ast.Inspect(fd.Body, func(n ast.Node) bool {
+		if e, ok := n.(ast.Expr); ok && plIsPFieldCall(e, "getCond", "Wait") {
+			waits = append(waits, n)
+		}
+		if g, ok := n.(*ast.GoStmt); ok && plIsPCall(g.Call, "wakeupWaiters") {
+			nGo++
+		}
+		return true
+	})
+	if len(waits) != 1 {
+		return "", fmt.Errorf("%s: expected exactly one p.getCond.Wait() (%d found)", name, len(waits))
+	}
+	wait := waits[0]
+	var block *ast.BlockStmt
+	doIdx, nDo := -1, 0
+	ast.Inspect(fd.Body, func(n ast.Node) bool {
+		if b, ok := n.(*ast.BlockStmt); ok {
+			for i, s := range b.List {
+				if plIsHeartbeatStart(s) {
+					block, doIdx = b, i
+					nDo++
+				}
+			}
+		}
+		return true
+	})
+	if nDo == 0 {
+		if nGo != 0 {
+			return "", fmt.Errorf("%s: the heartbeat is started in a way the translator does not recognise (expected `p.runHeartbeatOnce.Do(func() { go p.wakeupWaiters() })`)", name)
+		}
+		return "get() never starts the heartbeat", nil
+	}
+	if nDo != 1 || nGo != 1 {
+		return "", fmt.Errorf("%s: expected exactly one start of the heartbeat (%d Do statements, %d go statements)", name, nDo, nGo)
+	}
+	do := block.List[doIdx]
+	waitIdx := -1
+	for j := doIdx + 1; j < len(block.List); j++ {
+		if block.List[j].Pos() <= wait.Pos() && wait.End() <= block.List[j].End() {
+			waitIdx = j
+		}
+	}
+	if waitIdx < 0 {
+		return fmt.Sprintf("the heartbeat start (line %d) does not precede getCond.Wait() (line %d) in one block", fset.Position(do.Pos()).Line, fset.Position(wait.Pos()).Line), nil
+	}
+	jumpIn := ""
+	ast.Inspect(fd.Body, func(n ast.Node) bool {
+		if ls, ok := n.(*ast.LabeledStmt); ok && ls.Pos() > do.Pos() && ls.Pos() <= wait.Pos() {
+			jumpIn = fmt.Sprintf("label %s (line %d) between the heartbeat start and getCond.Wait()", ls.Label.Name, fset.Position(ls.Pos()).Line)
+		}
+		return true
+	})
+	return jumpIn, nil
+}
+
+func plCoqBool(b bool) string {
+	if b {
+		return "true"
+	}
+	return "false"
+}
+
 func genPool(repo string) (string, string, error) {
 	fset := token.NewFileSet()
 	f, err := parser.ParseFile(fset, filepath.Join(repo, "pipeline", "event.go"), nil, 0)
@@ -234,7 +562,8 @@ func genPool(repo string) (string, string, error) {
 	lmAvail := poolMethod(f, "lowMemoryEventPool", "eventsAvailable")
 	lmTick := poolMethod(f, "lowMemoryEventPool", "wakeupWaiters")
 	stdTick := poolMethod(f, "eventPool", "wakeupWaiters")
-	if lmGet == nil || lmAvail == nil || lmTick == nil || stdTick == nil {
+	stdGet := poolMethod(f, "eventPool", "get")
+	if lmGet == nil || lmAvail == nil || lmTick == nil || stdTick == nil || stdGet == nil {
 		return "", "", fmt.Errorf("pool methods not found in pipeline/event.go")
 	}
 	// 1. capacity test of the low-memory get: the only `if` comparing `inUse` with p.capacity
@@ -289,6 +618,23 @@ func genPool(repo string) (string, string, error) {
 	if err != nil {
 		return "", "", fmt.Errorf("eventPool.wakeupWaiters: %v", err)
 	}
+	// 4. the heartbeats' life cycle
+	lmExits, err := poolHbForever(fset, lmTick)
+	if err != nil {
+		return "", "", fmt.Errorf("lowMemoryEventPool.%v", err)
+	}
+	stdExits, err := poolHbForever(fset, stdTick)
+	if err != nil {
+		return "", "", fmt.Errorf("eventPool.%v", err)
+	}
+	lmNoStart, err := poolHbStarts(fset, lmGet)
+	if err != nil {
+		return "", "", fmt.Errorf("lowMemoryEventPool.%v", err)
+	}
+	stdNoStart, err := poolHbStarts(fset, stdGet)
+	if err != nil {
+		return "", "", fmt.Errorf("eventPool.%v", err)
+	}
 	var b strings.Builder
 	b.WriteString("(* GENERATED from /repo/pipeline/event.go by harness/gen (translator \"pool\") — do not edit.\n")
 	b.WriteString("   The comparisons and heartbeat conditions of the two event pools, as written in the source. *)\n")
@@ -302,5 +648,24 @@ func genPool(repo string) (string, string, error) {
 	b.WriteString("(* the `if` that guards the heartbeat's Broadcast; w = `waiters > 0`, a = `eventsAvailable` *)\n")
 	fmt.Fprintf(&b, "Definition pool_lm_tick_cond (w a : bool) : bool := %s.\n", lmCondS)
 	fmt.Fprintf(&b, "Definition pool_std_tick_cond (w a : bool) : bool := %s.\n", stdCondS)
+	b.WriteString("(* wakeupWaiters is `for { if p.stopped.Load() { return }; time.Sleep(p.wakeupInterval); ... }` and the stop guard is the\n")
+	b.WriteString("   only way out of the loop: the heartbeat, once started, ticks until the pool is stopped *)\n")
+	hb := func(name string, exits []string) {
+		if len(exits) > 0 {
+			fmt.Fprintf(&b, "(* %s: ways out of the heartbeat loop: %s *)\n", name, strings.Join(exits, "; "))
+		}
+		fmt.Fprintf(&b, "Definition %s : bool := %s.\n", name, plCoqBool(len(exits) == 0))
+	}
+	hb("pool_lm_hb_forever", lmExits)
+	hb("pool_std_hb_forever", stdExits)
+	b.WriteString("(* get() runs `p.runHeartbeatOnce.Do(func() { go p.wakeupWaiters() })` on every path to getCond.Wait() *)\n")
+	st := func(name, why string) {
+		if why != "" {
+			fmt.Fprintf(&b, "(* %s: %s *)\n", name, why)
+		}
+		fmt.Fprintf(&b, "Definition %s : bool := %s.\n", name, plCoqBool(why == ""))
+	}
+	st("pool_lm_hb_starts", lmNoStart)
+	st("pool_std_hb_starts", stdNoStart)
 	return "PoolGen.v", b.String(), nil
 }
